@@ -78,6 +78,7 @@ class Stats:
         self.max_samples = max_samples
         self.exhaustive = None
         self.extra = {}
+        self.fallback_sample = None
 
     def label(self, name, amount=1):
         self.hist[name] = self.hist.get(name, 0) + amount
@@ -90,14 +91,15 @@ class Stats:
                 self.fps.add(fp)
                 if sample is not None and len(self.samples) < self.max_samples:
                     self.samples.append(sample)
-        elif sample is not None and not self.samples:
-            self.samples.append(sample)
+        elif sample is not None and self.fallback_sample is None:
+            self.fallback_sample = sample
 
     def to_json(self):
         return {
             'evaluations': self.evaluations,
             'fps': sorted(self.fps),
-            'samples': self.samples,
+            'samples': self.samples or ([self.fallback_sample] if self.fallback_sample is not None else []),
+            'samples_nontrivial': bool(self.samples),
             'hist': self.hist,
             'violations': self.violations,
             'excluded_known': self.excluded_known,
@@ -357,6 +359,7 @@ def main(argv=None):
     # merge
     fps = set()
     samples = []
+    fallback_samples = []
     hist = {}
     violations = []
     excluded = {}
@@ -368,8 +371,11 @@ def main(argv=None):
         evaluations += res['evaluations']
         fps.update(res['fps'])
         for sample in res['samples']:
-            if len(samples) < 5:
-                samples.append(sample)
+            if res.get('samples_nontrivial', True):
+                if len(samples) < 5:
+                    samples.append(sample)
+            elif len(fallback_samples) < 2:
+                fallback_samples.append(sample)
         for name, value in res['hist'].items():
             hist[name] = hist.get(name, 0) + value
         violations += res['violations']
@@ -388,6 +394,7 @@ def main(argv=None):
             else:
                 extra.setdefault(name, value)
 
+    samples = samples or fallback_samples
     known = load_known()
     wall = time.time() - t0
     coverage = {
